@@ -154,7 +154,33 @@ def known_triggers(opts):
         if has(opts, "tracing/actor"):
             av.add("maestro-comm")           # HOST_STATE value "start" never declared: TracingError
             av.add("migrate-across-levels")  # ACTOR_STATE / ACTOR_LINK are only set up for the zone level of the first actors
+            av.add("autorestart")            # the on_exit callback of the first incarnation is replayed by the restarted one
     return av
+
+
+def triggers_in(text, opts):
+    """Known-finding triggers actually present in a scenario (used to key message-less crashes)."""
+    av = known_triggers(opts)
+    lines = text.split("\n")
+    tops = [l for l in lines if l.startswith("Z ")]
+    present = set()
+    if any(l.startswith("RT ") for l in lines):
+        present.add("router")
+    if len(tops) >= 2:
+        present |= {"siblings", "migrate-across-levels"}
+    if any(l.startswith("P S ") or l.startswith("pstate ") for l in lines):
+        present.add("speed-change")
+    if any(l.startswith("P B ") or l.startswith("setbw ") for l in lines):
+        present.add("bw-change")
+    if any(l.startswith("cat ") or l.startswith("declcat ") for l in lines):
+        present.add("categories")
+    if any(l.startswith("M sendto") for l in lines):
+        present.add("maestro-comm")
+    if any(l.startswith("script ") and l.split()[-1] == "1" for l in lines):
+        present.add("autorestart")
+    if has(opts, "tracing/vm"):
+        present.add("vm-tracing")
+    return sorted(present & (av | {"vm-tracing"}))
 
 
 def gen_s4u(rng, opts=(), tame=False, force=None):
@@ -216,7 +242,7 @@ def gen_s4u(rng, opts=(), tame=False, force=None):
         initial = 1 if k < ninit else 0
         daemon = 1 if initial and k > 0 and rng.random() < 0.15 else 0
         killtime = rng.choice([0.5, 1.0, 2.0, 3.5]) if rng.random() < 0.15 else -1
-        autorestart = 1 if want_fail and rng.random() < 0.3 else 0
+        autorestart = 1 if want_fail and rng.random() < 0.3 and "autorestart" not in avoid else 0
         L.append("script %d %s %d %d %s %d" % (k, script_hosts[k], initial, daemon, _fmt(float(killtime)) if killtime >= 0 else "-1", autorestart))
         nops = rng.randint(3, 12)
         ops = []
